@@ -23,9 +23,9 @@ for p in sorted(glob.glob(f'{V}/checks/C*.json')):
 status = ['| property | level | harnesses | paths (quick) | obligations discharged by the solver | decided by term rewriting | wall s | defects found |',
           '|---|---|---|---|---|---|---|---|'] + rows
 seeds = ['| property | seeded change | needs | detected by |', '|---|---|---|---|']
-for p in sorted(glob.glob(f'{V}/seeded/C*/meta.json')) + sorted(glob.glob(f'{V}/seeded/round2/C*/meta.json')):
+for p in sorted(glob.glob(f'{V}/seeded/C*/meta.json')) + sorted(glob.glob(f'{V}/seeded/round2/C*/meta.json')) + sorted(glob.glob(f'{V}/seeded/round3/C*/meta.json')):
     m = json.load(open(p))
-    seeds.append('| %s%s | %s | %s | %s |' % (m['property'], ' (round 2)' if '/round2/' in p else '', m['change'], m['needs_to_manifest'],
+    seeds.append('| %s%s | %s | %s | %s |' % (m['property'], ' (round 2)' if '/round2/' in p else ' (round 3)' if '/round3/' in p else '', m['change'], m['needs_to_manifest'],
                  m['detected_by'] if m['detected'] else '**missed**'))
 d = open(f'{V}/DESIGN.md').read()
 def put(tag, lines):
